@@ -17,7 +17,8 @@ THEOREMS = [P + t for t in (
     "lt_refl", "lt_trans", "lt_antisymm", "lt_iff_fields", "gt_iff_fields", "not_lt_names_deficit",
     "eq_trans", "eq_zero_zero", "eq_zero_iff", "add_congr", "sub_congr",
     "no_operator_hooks", "aug_assign_pure", "running_total", "step_prefix", "objects_never_modified", "object_value_stable",
-    "aug_leaves_other_holders", "result_is_fresh", "result_aliases_nothing", "operands_survive_result_updates", "fmtComma_neg", "toStr_empty_iff", "deficit_is_printable", "groupDigits_filter", "fmtComma_digits")]
+    "aug_leaves_other_holders", "result_is_fresh", "result_aliases_nothing", "operands_survive_result_updates", "legacy_eq_full", "legacy_eq_iff", "legacy_eq_refl", "legacy_eq_full_left", "legacy_eq_symm_partial",
+    "legacy_eq_symm_counterexample", "legacy_eq_both_iff_value", "fmtComma_neg", "toStr_empty_iff", "deficit_is_printable", "groupDigits_filter", "fmtComma_digits")]
 TRUSTED_BASE = [
     "gen/capops.py + gen/symexec.py: the operators are executed symbolically (all paths) on operands whose fields are distinct symbols; "
     "the extractor checks on every path that the result is a new object, the operands hold the same objects afterwards, and that the "
@@ -31,7 +32,9 @@ TRUSTED_BASE = [
     "operands included, then the result is updated in place and the operands re-read)",
     "Python int arithmetic modelled by Lean Int; f'{v:,}' modelled by Cap.fmtComma (differential only)",
 ]
-ASSUMPTIONS = ["both operands are Capacities with the class's current field list (pickles of older versions are outside the quantifier)"]
+ASSUMPTIONS = ["arithmetic, fits-within, negative_fields and printing: both operands are Capacities carrying the class's current field list; "
+               "objects that lack fields (restored from a pickle of an older release) are inside the quantifier for == only - the one method "
+               "that caters for them (a right operand lacking a field makes + - < > raise KeyError on the unchanged tree)"]
 RULE = ("programs of up to 13 statements (+ - += -= FreeCapacity alias) over 2..5 variables with aliasing, compared object by object; "
         "pairs/triples of capacity values over all eight fields drawn from {0,1,2,small,2^31,2^63,2^64+1,huge}; results with negative "
         "fields are fed back as operands; non-trivial = some field non-zero in each operand; distinct by canonical operand values")
@@ -39,11 +42,53 @@ RULE = ("programs of up to 13 statements (+ - += -= FreeCapacity alias) over 2..
 EDGE = [0, 0, 0, 1, 1, 2, 3, 7, 10, 100, 1000, 4096, 2 ** 31 - 1, 2 ** 31, 2 ** 32, 2 ** 63 - 1, 2 ** 63, 2 ** 64 + 1, 10 ** 30]
 
 
-def _mk(cl, vals):
+# ways an operand comes into being in the library: written field by field (as results are), the keyword constructor (all fields /
+# only the non-zero ones), attribute assignment, the private setter, from_json of the encoding, JSONField.update (quasi-copy, with
+# and without keyword arguments), copy.deepcopy, a pickle round trip.  Negative values only arise as results: the validating paths
+# are used for non-negative operands only.
+PATHS_ANY = ["direct", "setattr", "update-copy", "deepcopy", "pickle"]
+PATHS_NONNEG = ["ctor", "ctor-sparse", "set_fields", "json", "update-kw", "json-of-update"]
+
+
+def paths_for(vals):
+    return PATHS_ANY + (PATHS_NONNEG if all(v >= 0 for v in vals) else [])
+
+
+def _mk(cl, vals, path="direct"):
     c = cl.Capacities()
-    for f, v in zip(list(c.__dict__.keys()), vals):
-        c.__dict__[f] = v       # negative values only arise as results; build them directly as results would
-    return c
+    fields = list(c.__dict__.keys())
+    kw = dict(zip(fields, vals))
+    nz = {f: v for f, v in kw.items() if v != 0}
+    if path in ("direct", "update-copy", "deepcopy", "pickle"):
+        for f, v in kw.items():
+            c.__dict__[f] = v       # negative values only arise as results; build them directly as results would
+        if path == "update-copy":
+            return cl.JSONField.update(c)
+        if path == "deepcopy":
+            return copy.deepcopy(c)
+        if path == "pickle":
+            import pickle
+            return pickle.loads(pickle.dumps(c))
+        return c
+    if path == "setattr":
+        for f, v in kw.items():
+            setattr(c, f, v)
+        return c
+    if path == "ctor":
+        return cl.Capacities(**kw)
+    if path == "ctor-sparse":
+        return cl.Capacities(**nz)
+    if path == "set_fields":
+        return c._set_fields(**nz)
+    if path == "update-kw":
+        return cl.Capacities.update(cl.Capacities(), **nz)
+    if path in ("json", "json-of-update"):
+        src = cl.Capacities(**nz)
+        if path == "json-of-update":
+            src = cl.JSONField.update(src)
+        r = cl.Capacities.from_json(src.to_json())
+        return cl.Capacities() if r is None else r      # the encoding of the all-zero capacity is '' and decodes to None
+    raise ValueError(path)
 
 
 def _vals(c):
@@ -74,8 +119,17 @@ def gen_cases(rng, n, nfields):
     return cases
 
 
-def impl_eval(cl, op, a, b=None):
+def impl_eval(cl, op, a, b=None, path=None):
     try:
+        if path is not None:
+            A, B = _mk(cl, a, path[0]), _mk(cl, b, path[1])
+            if op == "add":
+                return ["ok", _vals(A + B)]
+            if op == "sub":
+                return ["ok", _vals(A - B)]
+            if op == "free":
+                return ["ok", _vals(cl.FreeCapacity(total=A, allocated=B).free)]
+            return ["ok", bool({"gt": lambda: A > B, "lt": lambda: A < B, "eq": lambda: A == B}[op]())]
         if op == "add":
             return ["ok", _vals(_mk(cl, a) + _mk(cl, b))]
         if op == "sub":
@@ -211,6 +265,110 @@ def check_program(cl, objs, stmts, res):
         res.violation("C15:raises:prog:" + r[1], "a capacity statement raised", case)
 
 
+UNKNOWN_FIELD = "pre_v1_field"      # a field of another release that today's class does not have
+
+
+def _legacy(cl, vals, mask, unknown=None):
+    """what unpickling returns for an object stored before some fields existed (or while a field existed that is gone today):
+    __dict__ restored as saved, __init__ not run"""
+    import pickle
+    fields = list(cl.Capacities().__dict__.keys())
+    o = cl.Capacities.__new__(cl.Capacities)
+    o.__dict__.update({f: v for f, v, m in zip(fields, vals, mask) if m})
+    if unknown is not None:
+        o.__dict__[UNKNOWN_FIELD] = unknown
+    return pickle.loads(pickle.dumps(o))
+
+
+def gen_legacy(rng, n, nf):
+    """pairs (a, mask_a, b, mask_b): either object may lack fields; b mostly carries a's values in the fields both have;
+    the fields only one side carries are 0 there in about half of the cases"""
+    full = [1] * nf
+    z = [0] * nf
+    base = [4, 16, 100] + [0] * (nf - 3) if nf >= 3 else [4] * nf
+    last2 = [1] * (nf - 2) + [0, 0]
+    hi = base[:-1] + [1500]
+    fixed = [
+        (base, last2, base, full),                    # the stored object of an older release against the same capacity, current
+        (base, full, base, last2),
+        (base, last2, [4, 32] + base[2:], full),      # a real difference in a field both carry
+        (base, last2, base, last2),
+        (z, last2, z, full),
+        (z, [0] * nf, z, full),                       # an object with no field at all
+        (z, [0] * nf, z, [0] * nf),
+        (base, [1, 0] * (nf // 2) + [1] * (nf % 2), base, [0, 1] * (nf // 2) + [1] * (nf % 2)),   # each lacks what the other has
+        (base, last2, hi, full),                      # the current object holds a non-zero value where the old one has no field
+        (hi, full, base, last2),
+    ]
+    out = []
+    for _ in range(n):
+        k = rng.random()
+        ma = [0 if rng.random() < 0.3 else 1 for _ in range(nf)] if k < 0.75 else list(full)
+        mb = [0 if rng.random() < 0.3 else 1 for _ in range(nf)] if (0.25 < k) else list(full)
+        if rng.random() < 0.3:
+            j = rng.randrange(1, nf + 1)             # "older release": a suffix of the field list is missing
+            ma = [1] * j + [0] * (nf - j)
+        a = [(rng.choice(EDGE) if rng.random() < 0.4 else rng.randrange(0, 30)) * (-1 if rng.random() < 0.1 else 1) for _ in range(nf)]
+        b = list(a)
+        zero_extras = rng.random() < 0.55
+        for i in range(nf):
+            if ma[i] != mb[i]:
+                if zero_extras:
+                    a[i] = b[i] = 0
+                elif rng.random() < 0.5:
+                    b[i] = rng.randrange(0, 3)
+        if rng.random() < 0.3:
+            i = rng.randrange(nf)
+            b[i] = b[i] + rng.choice([1, -1, 2 ** 63])
+        out.append((a, ma, b, mb))
+    return fixed + out
+
+
+def impl_eqd(cl, a, ma, b, mb):
+    try:
+        A, B = _legacy(cl, a, ma), _legacy(cl, b, mb)
+        return ["ok", [bool(A == B), bool(B == A), bool(A == A), bool(B == B)]]
+    except Exception as e:
+        return ["err", err_kind(e)]
+
+
+def check_legacy(cl, a, ma, b, mb, res, unknown=(None, None)):
+    """equality is reflexive and symmetric - also when an operand is an object restored from a pickle of an older release (its
+    __dict__ lacks fields), the case Capacities.__eq__ caters for: a field an object does not carry counts as 0"""
+    case = {"legacy": True, "a": a, "mask_a": ma, "b": b, "mask_b": mb}
+    extras = [(x if p else y) for x, p, y, q in zip(a, ma, b, mb) if p != q]
+    xa, xb = unknown
+    if xa is not None or xb is not None:
+        case["unknown"] = [xa, xb]
+        if xa is None or xb is None:
+            extras.append(xb if xa is None else xa)
+    same = ma == mb and (xa is None) == (xb is None)
+    cls = "same-fields" if same else ("extras-zero" if not any(extras) else "extra-field-nonzero")
+    side = "both-partial" if (0 in ma and 0 in mb) else ("right-partial" if 0 in mb else ("left-partial" if 0 in ma else "complete"))
+    try:
+        A, B = _legacy(cl, a, ma, xa), _legacy(cl, b, mb, xb)
+        if not (A == A) or not (B == B):
+            res.violation("C15:eq_refl:legacy", "an object that lacks fields is not equal to itself", case)
+        ab, ba = bool(A == B), bool(B == A)
+        if ab != ba:
+            res.violation("C15:eq_symm:legacy:" + cls, "== is not symmetric when an operand lacks fields (%s): a == b is %s, b == a is %s" % (side, ab, ba),
+                          case, observed=[ab, ba])
+        va = [x if p else 0 for x, p in zip(a, ma)] + [xa or 0]
+        vb = [x if p else 0 for x, p in zip(b, mb)] + [xb or 0]
+        for x, m, got, other, tag in ((a, ma, ab, vb, "a == b"), (b, mb, ba, va, "b == a")):
+            if 0 not in m and xa is None and xb is None and got != (list(x) + [0] == other):
+                res.violation("C15:eq_iff:legacy:missing-counts-as-zero", "%s with a complete left operand disagrees with field-wise equality where a field "
+                              "the other object does not carry counts as 0" % tag, case, expected=(list(x) + [0] == other), observed=got)
+        # the result of arithmetic on current objects compared with the stored one, from both sides
+        if 0 not in ma and xa is None and 0 in mb:
+            R = (A + A) - A
+            if bool(R == B) != ab or bool(B == R) != ba:
+                res.violation("C15:eq_congr:legacy", "(a+a)-a compares differently with the stored object than a does", case)
+    except Exception as e:
+        res.violation("C15:raises:legacy:" + err_kind(e), "== raised %s: %s" % (type(e).__name__, e), case)
+    return cls, side
+
+
 def correspondence(ctx, res, n=None):
     import fim.slivers.capacities_labels as cl
     fields = list(cl.Capacities().__dict__.keys())
@@ -230,11 +388,24 @@ def correspondence(ctx, res, n=None):
             reqs.append(["add", d[1], b])
     progs = gen_programs(ctx.sub_rng("prog"), ctx.scale(400, 6000), len(fields))
     reqs += [["prog", p[0], p[1]] for p in progs]
-    impl = [impl_prog(cl, r[1], r[2]) if r[0] == "prog" else impl_eval(cl, *r) for r in reqs]
+    via = {}
+    prng = ctx.sub_rng("paths")
+    for a, b, c in cases[:ctx.scale(400, 5000)]:
+        pa, pb = prng.choice(paths_for(a)), prng.choice(paths_for(b))
+        for op in ("add", "sub", "free", "gt", "lt", "eq"):
+            via[len(reqs)] = (pa, pb)
+            reqs.append([op, a, b])
+    for a, ma, b, mb in gen_legacy(ctx.sub_rng("legacy"), ctx.scale(500, 8000), len(fields)):
+        reqs.append(["eqd", a, ma, b, mb])
+    impl = [impl_prog(cl, r[1], r[2]) if r[0] == "prog" else (impl_eqd(cl, *r[1:]) if r[0] == "eqd" else impl_eval(cl, *r, path=via.get(k)))
+            for k, r in enumerate(reqs)]
     model = LeanDriver("C15").run([json.dumps(r) for r in reqs])
-    for r, i, m in zip(reqs, impl, model):
+    for k, (r, i, m) in enumerate(zip(reqs, impl, model)):
         res.evaluations += 1
         res.count("op:" + r[0])
+        if k in via:
+            res.count("operand-built-via:" + via[k][0])
+            res.count("operand-built-via:" + via[k][1])
         if i[0] == "err":
             res.count("err:" + i[1])
         if r[0] == "prog":
@@ -243,25 +414,46 @@ def correspondence(ctx, res, n=None):
             if i[0] == "ok" and len(set(i[1][0])) < len(i[1][0]):
                 res.count("prog:ends-with-aliased-variables")
             res.nontrivial.add(canon(r))
+        elif r[0] == "eqd":
+            res.count("eqd:" + ("same-fields" if r[2] == r[4] else "different-fields") + (":equal" if i[0] == "ok" and i[1][0] and i[1][1] else
+                                                                                           (":one-way" if i[0] == "ok" and i[1][0] != i[1][1] else ":unequal")))
+            if r[2] != r[4] and any(r[1]):
+                res.nontrivial.add(canon(r))
         elif any(x != 0 for x in r[1]) and (len(r) < 3 or r[0] == "pos" or any(x != 0 for x in r[2])):
             res.nontrivial.add(canon(r))
         if json.loads(m) != i:
-            res.disagreements.append({"case": r, "impl": i, "model": json.loads(m)})
+            res.disagreements.append({"case": r if k not in via else {"request": r, "operands_built_via": via[k]}, "impl": i, "model": json.loads(m)})
     res.sample({"request": reqs[7], "impl": impl[7], "model": json.loads(model[7])})
     res.sample({"request": reqs[-1], "impl": impl[-1], "model": json.loads(model[-1])})
 
 
-def check_laws(cl, a, b, c, res):
-    """The property itself, evaluated on the implementation."""
-    A, B, C = _mk(cl, a), _mk(cl, b), _mk(cl, c)
-    snap = (copy.deepcopy(A.__dict__), copy.deepcopy(B.__dict__))
+def check_laws(cl, a, b, c, res, path=None):
+    """The property itself, evaluated on the implementation.  `path` = how the three operands come into being (default: written
+    field by field, as results are)."""
     case = {"a": a, "b": b, "c": c}
+    sfx = ""
+    if path:
+        case["path"] = list(path)
+        sfx = ":via-" + "/".join(sorted(set(path) - {"direct"}))
 
     def bad(sig, what, **kw):
-        res.violation("C15:" + sig, what, case, **kw)
+        res.violation("C15:" + sig + sfx, what + (" (operands built via %s)" % "/".join(path) if path else ""), case, **kw)
+    try:
+        pa, pb, pc = path or ("direct", "direct", "direct")
+        A, B, C = _mk(cl, a, pa), _mk(cl, b, pb), _mk(cl, c, pc)
+        fields = list(cl.Capacities().__dict__.keys())
+        for nm, o, v in (("a", A, a), ("b", B, b), ("c", C, c)):
+            if type(o) is not cl.Capacities or list(o.__dict__.keys()) != fields or _vals(o) != list(v):
+                bad("operand_value", "operand %s does not carry the eight values it was built from" % nm, expected=list(v),
+                    observed=getattr(o, "__dict__", None))
+                return
+    except Exception as e:
+        bad("raises:" + err_kind(e), "building an operand raised %s: %s" % (type(e).__name__, e))
+        return
+    snap = (copy.deepcopy(A.__dict__), copy.deepcopy(B.__dict__))
     try:
         s = (A + B) - B
-        if s.__dict__ != A.__dict__:
+        if s.__dict__ != A.__dict__ or _vals(s) != list(a):
             bad("add_sub_cancel", "(a+b)-b != a", expected=a, observed=_vals(s))
         if (A + B).__dict__ != (B + A).__dict__:
             bad("add_comm", "a+b != b+a")
@@ -389,10 +581,32 @@ def oracle(ctx, res, n=None):
         if any(a) and any(b):
             res.nontrivial.add(canon([a, b]))
         check_laws(cl, a, b, c, res)
+    prng = ctx.sub_rng("oracle-paths")
+    for k, (a, b, c) in enumerate(cases[:max(200, len(cases) // 2)]):
+        # the same laws on operands that came into being through the library's own construction paths
+        pa, pb, pc = paths_for(a), paths_for(b), paths_for(c)
+        path = (pa[k % len(pa)], prng.choice(pb), prng.choice(pc))
+        res.evaluations += 1
+        res.count("oracle:operand-built-via:" + path[0])
+        check_laws(cl, a, b, c, res, path=path)
     for a, b, c in cases[:max(50, len(cases) // 10)]:
         res.evaluations += 1
         res.count("oracle:fresh")
         check_fresh(cl, a, b, res)
+    urng = ctx.sub_rng("oracle-legacy-unknown")
+    for a, ma, b, mb in gen_legacy(ctx.sub_rng("oracle-legacy"), (n or ctx.scale(3000, 100000)) // 3, nf):
+        res.evaluations += 1
+        cls, side = check_legacy(cl, a, ma, b, mb, res)
+        res.count("oracle:legacy:" + cls + ":" + side)
+        u = urng.random()
+        if u < 0.25:        # one / both of the objects carry a field today's class does not know
+            v = urng.choice([0, 0, 0, 1, 7, 2 ** 40])
+            unknown = (v, None) if u < 0.1 else ((None, v) if u < 0.2 else (v, urng.choice([v, v, 0, 3])))
+            cls, side = check_legacy(cl, a, ma, b, mb, res, unknown=unknown)
+            res.evaluations += 1
+            res.count("oracle:legacy:unknown-field:" + cls)
+        if ma != mb and any(a):
+            res.nontrivial.add(canon([a, ma, b, mb]))
     progs = gen_programs(ctx.sub_rng("oracle-prog"), (n or ctx.scale(3000, 100000)) // 6, nf)
     for objs, stmts in progs:
         res.evaluations += 1
@@ -410,12 +624,14 @@ def replay(ctx, payload):
     from core import Result
     r = Result()
     c = payload["case"]
-    if "stmts" in c:
+    if "legacy" in c:
+        check_legacy(cl, c["a"], c["mask_a"], c["b"], c["mask_b"], r, unknown=tuple(c.get("unknown") or (None, None)))
+    elif "stmts" in c:
         check_program(cl, c["objs"], c["stmts"], r)
     elif "fresh" in c:
         check_fresh(cl, c["a"], c["b"], r)
     else:
-        check_laws(cl, c["a"], c["b"], c["c"], r)
+        check_laws(cl, c["a"], c["b"], c["c"], r, path=tuple(c["path"]) if c.get("path") else None)
     for v in r.violations:
         print("  ", v["signature"], v["what"])
     return bool(r.violations)
